@@ -161,7 +161,7 @@ class _FailingSink:
 def replay_ops(chk, h, skip):
   """Operators.tla 'fail' universe on the real runner with ignore_error = skip."""
   prog = h['prog']
-  if h['build_error']:
+  if h['build_error'] or h.get('undefined'):
     return
   ps = c08.prog_str(prog)
   kinds = '+'.join(sorted({o['op'] for o in prog}))
